@@ -363,3 +363,65 @@ func init() {
 		}
 	}
 }
+
+func init() {
+	// live-c04 <trace>: segmentation over a real socket.  One connection; a short stream of frames whose bodies are full of
+	// bytes that line-oriented or text-minded code might treat specially (CR, LF, NUL, TAB, space, 0x7d/0x7e pairs) is sent
+	// once per cut position, in two writes with a pause in between, so that the server's reads end at every byte position.
+	cmds["live-c04"] = func(a []string) {
+		l := startLive(liveOpts{traceTo: a[0]})
+		phone := []byte{0x01, 0x0a, 0x0d, 0x00, 0x20, 0x09} // the phone field itself holds LF, CR, NUL, space, TAB (BCD digits 010a0d002009)
+		t := l.dial(phone, 0)
+		t.serial = 0x0a0c // serials 0x0a0d.. : CR / LF inside the header as well
+		bodies := [][]byte{
+			{0x0d, 0x0a, 0x31, 0x32, 0x0d, 0x0a},
+			append(append([]byte{0x0a}, make([]byte, 26)...), 0x0d),
+			{0x20, 0x09, 0x00, 0x7e, 0x0a, 0x7d, 0x0d, 0x0a, 0x0a},
+		}
+		expect := int64(0)
+		missed := false
+		round := func(cut int) {
+			var stream []byte
+			for i, b := range bodies {
+				body := b
+				if i == 1 {
+					body = append([]byte{}, b...)
+					body = append(body, 0x0a)[:28] // a 28-byte location block beginning with LF
+				}
+				stream = append(stream, t.frame([]int{0x0900, 0x0200, 0x0900}[i], body)...)
+			}
+			if cut <= 0 || cut >= len(stream) {
+				t.send(stream)
+			} else {
+				t.send(stream[:cut])
+				time.Sleep(1500 * time.Microsecond)
+				t.send(stream[cut:])
+			}
+			expect++ // only the 0x0200 is answered (0x0900 is not a supported id)
+			wait := 5 * time.Second
+			if missed {
+				wait = 100 * time.Millisecond // a reply already failed to come: the rest is sent without long waits
+			}
+			if !t.waitRecv(expect, wait) {
+				missed = true
+			}
+		}
+		round(0)
+		n := 0
+		{
+			var probe []byte
+			for i, b := range bodies {
+				probe = append(probe, buildFrame(hdrSpec{id: []int{0x0900, 0x0200, 0x0900}[i], serial: 1, phone: phone, body: b})...)
+			}
+			n = len(probe) + 8
+		}
+		for cut := 1; cut < n; cut++ {
+			round(cut)
+		}
+		time.Sleep(30 * time.Millisecond)
+		l.rec.log(t.idx, "D", "end")
+		t.close(false)
+		time.Sleep(50 * time.Millisecond)
+		l.dump(a[0])
+	}
+}
